@@ -1,7 +1,7 @@
 (* C03 extraction unit: the token grammar (tokens_of / pre_events / numbering / wf) and the parser model alone
-   (parse_tokens), so that parse_tokens (wrap (tokens_of t)) = wrap_events (events_of t) can be TESTED on
-   generated layout trees.  ExtrOcamlBasic only. *)
+   (parse_tokens), so that parse_tokens (wrap (tokens_of t)) = wrap_events (events_of t) and, for whole streams,
+   parse_tokens (stream_toks ds) = stream_events keep ds can be TESTED on generated layout trees.  ExtrOcamlBasic only. *)
 From Coq Require Import List NArith ZArith Bool.
 From Coq Require Import ExtrOcamlBasic.
-Require Import Parser SBase SPrim SDir SScalar SFetch Pipe Drivers TokenGrammar.
-Extraction "model.ml" tokens_of pre_events number bound env0 events_of wf wf_root wrap wrap_events parse_tokens.
+Require Import Parser SBase SPrim SDir SScalar SFetch Pipe Drivers TokenGrammar FlowText.
+Extraction "model.ml" tokens_of pre_events number bound env0 events_of wf wf_root wrap wrap_events parse_tokens stream_toks stream_events docs_wf docs_bound render doc_text lt fwf depth is_coll.
